@@ -400,3 +400,99 @@ Lemma derive_build_rejects_iff d ok ops :
   (exists e, derive_build d ok ops = Err e) <->
   b_stream b > 127 \/ b_item b = ItemErr \/ (b_w b = true /\ b_fn b mod 2 = 0).
 Proof. cbn zeta. unfold derive_build, build. apply new_data_message_rejects_iff. Qed.
+
+(** rebuilding a data header from its own accessors gives the header back *)
+Lemma rebuild_hdr h body :
+  hdr_ok h -> h4 h = 0 -> h5 h = 0 -> (wait_bit h = true -> function_of h mod 2 <> 0) ->
+  new_data_message (stream_of h) (function_of h) (wait_bit h) (session_id h) (system_bytes h) (ItemOk body)
+  = Ok (mkD h body).
+Proof.
+  intros Hok P S Q. destruct h as [x0 x1 x2 x3 x4 x5 x6 x7 x8 x9].
+  unfold hdr_ok, bytes_ok, hdr_bytes in Hok. cbn [h0 h1 h2 h3 h4 h5 h6 h7 h8 h9] in *.
+  repeat match goal with H : Forall _ (_ :: _) |- _ => inversion H; clear H; subst end.
+  unfold byte_ok in *.
+  unfold new_data_message, MAX_STREAM, stream_of, function_of, wait_bit, session_id, system_bytes, de16 in *.
+  cbn [h0 h1 h2 h3 h4 h5 h6 h7 h8 h9] in *.
+  assert (E1 : Z.land x2 127 = x2 mod 128) by (apply land127_byte; lia).
+  assert (E2 : Z.shiftr x2 7 = x2 / 128) by (apply shiftr7_byte; lia).
+  rewrite E2 in Q. rewrite E1, E2.
+  replace (x2 mod 128 >? 127) with false by lia.
+  assert (W : (negb (x2 / 128 =? 0) && (x3 mod 2 =? 0)) = false).
+  { destruct (x2 / 128 =? 0) eqn:E; cbn [negb andb]; [reflexivity|].
+    assert (x3 mod 2 <> 0) by (apply Q; reflexivity). lia. }
+  rewrite W. f_equal. unfold put_sys, put_b3, put_b2, put_sid, hdr_zero, item_body.
+  cbn [h0 h1 h2 h3 h4 h5 h6 h7 h8 h9].
+  rewrite land127_small by lia.
+  replace ((x0 * 256 + x1) / 256 mod 256) with x0 by lia.
+  replace ((x0 * 256 + x1) mod 256) with x1 by lia.
+  destruct (x2 / 128 =? 0) eqn:E; cbn [negb].
+  - replace (x2 mod 128) with x2 by lia. reflexivity.
+  - rewrite lor128_small by lia. replace (x2 mod 128 + 128) with x2 by lia. reflexivity.
+Qed.
+
+Definition stamp_ok (s : stamp) : Prop :=
+  match s with
+  | SetSid id => 0 <= id < 65536
+  | SetSys (a, b, c, d) => byte_ok a /\ byte_ok b /\ byte_ok c /\ byte_ok d
+  | SetId id => 0 <= id < 4294967296
+  end.
+Definition bop_ok (o : bop) : Prop :=
+  match o with
+  | BSid id => 0 <= id < 65536
+  | BSys (a, b, c, d) => byte_ok a /\ byte_ok b /\ byte_ok c /\ byte_ok d
+  | BId id => 0 <= id < 4294967296
+  | _ => False
+  end.
+Definition stamp_of_bop (o : bop) : stamp :=
+  match o with BSid id => SetSid id | BSys sb => SetSys sb | BId id => SetId id | _ => SetSid 0 end.
+
+Lemma stamp_hdr_ok h s : hdr_ok h -> stamp_ok s -> hdr_ok (stamp_hdr h s).
+Proof.
+  intros Hok S. destruct h as [x0 x1 x2 x3 x4 x5 x6 x7 x8 x9].
+  unfold hdr_ok, bytes_ok, hdr_bytes in *. cbn [h0 h1 h2 h3 h4 h5 h6 h7 h8 h9] in *.
+  repeat match goal with H : Forall _ (_ :: _) |- _ => inversion H; clear H; subst end.
+  destruct s as [id|[[[a b] c] d]|id]; cbn [stamp_ok stamp_hdr] in *.
+  - unfold put_sid. cbn [h0 h1 h2 h3 h4 h5 h6 h7 h8 h9]. unfold byte_ok in *. repeat constructor; lia.
+  - destruct S as (? & ? & ? & ?). unfold put_sys. cbn [h0 h1 h2 h3 h4 h5 h6 h7 h8 h9].
+    repeat (apply Forall_cons; [assumption|]). apply Forall_nil.
+  - unfold to_system_bytes, put_sys. cbn [h0 h1 h2 h3 h4 h5 h6 h7 h8 h9]. unfold byte_ok in *. repeat constructor; lia.
+Qed.
+
+(** Derive() then only session-id / system-bytes overrides then Build() IS the re-stamp chain:
+    same header bytes 2-5, same body, the stamped fields replaced — for every chain. *)
+Lemma derive_build_stamps : forall ops d,
+  hdr_ok (d_hdr d) -> h4 (d_hdr d) = 0 -> h5 (d_hdr d) = 0 ->
+  (wait_bit (d_hdr d) = true -> function_of (d_hdr d) mod 2 <> 0) ->
+  Forall bop_ok ops ->
+  derive_build d true ops = Ok (fold_left stamp_d (map stamp_of_bop ops) d).
+Proof.
+  intros ops d Hok P S Q F. unfold derive_build.
+  assert (G : forall ops b hb,
+             Forall bop_ok ops -> hdr_ok hb -> h4 hb = 0 -> h5 hb = 0 ->
+             (wait_bit hb = true -> function_of hb mod 2 <> 0) ->
+             b = mkB (session_id hb) (system_bytes hb) (stream_of hb) (function_of hb) (wait_bit hb) (ItemOk (d_body d)) ->
+             build (fold_left bstep ops b) = Ok (fold_left stamp_d (map stamp_of_bop ops) (mkD hb (d_body d)))).
+  { clear. induction ops as [|o ops IH]; intros b hb F Hok P S Q ->.
+    - cbn [fold_left map]. unfold build. cbn [b_stream b_fn b_w b_sid b_sys b_item]. apply rebuild_hdr; assumption.
+    - inversion F as [|? ? Fo F']; subst. cbn [fold_left map].
+      assert (So : stamp_ok (stamp_of_bop o)) by (destruct o; cbn in *; tauto).
+      pose proof (stamp_hdr_ok hb (stamp_of_bop o) Hok So) as Hok'.
+      pose proof (stamp_hdr_fields hb (stamp_of_bop o)) as Fl. cbn zeta in Fl.
+      destruct Fl as (F01 & F2 & F3 & F4 & F5 & F69).
+      replace (stamp_d (mkD hb (d_body d)) (stamp_of_bop o))
+        with (mkD (stamp_hdr hb (stamp_of_bop o)) (d_body d)) by (destruct (stamp_of_bop o); reflexivity).
+      apply (IH _ (stamp_hdr hb (stamp_of_bop o)) F' Hok').
+      + congruence.
+      + congruence.
+      + unfold wait_bit, function_of in *. rewrite F2, F3. exact Q.
+      + destruct hb as [x0 x1 x2 x3 x4 x5 x6 x7 x8 x9].
+        unfold hdr_ok, bytes_ok, hdr_bytes in Hok. cbn [h0 h1 h2 h3 h4 h5 h6 h7 h8 h9] in Hok.
+        repeat match goal with H : Forall _ (_ :: _) |- _ => inversion H; clear H; subst end.
+        unfold byte_ok in *.
+        destruct o as [v|v|w|it|id|[[[a b] c] d']|id]; cbn [bop_ok] in Fo; try tauto;
+          cbn [bstep stamp_of_bop stamp_hdr b_sid b_sys b_stream b_fn b_w b_item];
+          unfold put_sid, put_sys, session_id, system_bytes, stream_of, function_of, wait_bit, de16, to_system_bytes;
+          cbn [h0 h1 h2 h3 h4 h5 h6 h7 h8 h9]; f_equal; lia. }
+  destruct d as [h body]. cbn [d_hdr d_body] in *.
+  apply (G ops _ h); auto.
+Qed.
